@@ -15,8 +15,24 @@ type row struct {
 	Format  gcnasm.Format // VOP3b rows are reported by the decoder's format name
 	Opcode  int           // VOP3P: 7-bit op (decoder opcode - 896)
 	DecName string        // the simulator's mnemonic
-	IsaName string        // manual mnemonic equal (normalised) to DecName, "" if the manuals name this opcode differently
-	W       gcnasm.Widths // widths implied by IsaName (Known=false if IsaName == "")
+	// ManName is the mnemonic the manuals of Arch give this opcode ("" = none);
+	// ManSource says which table. RefName is the mnemonic the descriptions of
+	// this row are built for: ManName, else the other architecture's manual name
+	// if that is what the shared decode table holds, else DecName. Judged =
+	// manual | other-arch | none (see probeRow).
+	ManName, ManSource string
+	RefName            string
+	Judged             string
+	W                  gcnasm.Widths // widths implied by RefName (Known=false if Judged == "none")
+}
+
+// ref is the (normalised) mnemonic that decides which operands / patterns a
+// description of this row has.
+func (r row) ref() string {
+	if r.RefName != "" {
+		return r.RefName
+	}
+	return gcnasm.NormName(r.DecName)
 }
 
 func (r row) id() string { return fmt.Sprintf("%s/%s/%d", r.Arch, r.Format, r.Opcode) }
@@ -112,7 +128,7 @@ func hasAny(n string, subs ...string) bool {
 //nolint:gocyclo
 func (r row) base() gcnasm.Desc {
 	w := r.W
-	n := gcnasm.NormName(r.DecName)
+	n := r.ref()
 	d := gcnasm.Desc{Arch: r.Arch, Format: r.Format, Opcode: r.Opcode, Name: n}
 	sw := func(x int) gcnasm.Operand { return gcnasm.SRange(2, wOr1(x)) }
 	switch r.Format {
@@ -212,7 +228,7 @@ func (r row) base() gcnasm.Desc {
 //nolint:gocyclo,funlen
 func (r row) patterns(rng *vlib.PRNG, nRandom int) []pat {
 	w := r.W
-	n := gcnasm.NormName(r.DecName)
+	n := r.ref()
 	b := r.base()
 	out := []pat{{ID: "base", D: b}}
 	add := func(id string, d gcnasm.Desc) { out = append(out, pat{ID: id, D: d}) }
@@ -507,7 +523,7 @@ func pick(rng *vlib.PRNG, c []gcnasm.Operand) gcnasm.Operand { return c[rng.Intn
 func (r row) randomDesc(b gcnasm.Desc, rng *vlib.PRNG) gcnasm.Desc {
 	w := r.W
 	d := b
-	n := gcnasm.NormName(r.DecName)
+	n := r.ref()
 	kLit := hasAny(n, "madmk", "madak", "fmamk", "fmaak")
 	oneLit := func(ops ...*gcnasm.Operand) { // at most one literal operand per instruction
 		seen := false
